@@ -3,7 +3,7 @@
 import json, os, re
 HERE = os.path.dirname(os.path.dirname(os.path.abspath(__file__)))
 exp = json.load(open(os.path.join(HERE, 'selftest', 'expect.json')))
-rows = {1: [], 2: [], 3: []}
+rows = {1: [], 2: [], 3: [], 4: []}
 n = c = 0
 missed = []
 for sid in sorted(os.listdir(os.path.join(HERE, 'seeded'))):
@@ -25,13 +25,14 @@ for sid in sorted(os.listdir(os.path.join(HERE, 'seeded'))):
     c += bool(m['caught_by_target_check'])
     if not m['caught_by_target_check']:
         missed.append(sid)
-    rnd = 3 if sid.startswith('R3-') else 2 if sid.startswith('R2-') else 1
+    rnd = 4 if sid.startswith('R4-') else 3 if sid.startswith('R3-') else 2 if sid.startswith('R2-') else 1
     rows[rnd].append("| `%s` | %s | %s | %s | %s |" % (sid, m['breaks_property'], m['needs_to_manifest'].replace('|', '/'),
                                                    'yes' if m['caught_by_target_check'] else '**no** (arithmetic overflow only)', ' '.join(m['checks_that_fire']) or '-'))
 head = """# Independent breaking changes (sub-agents)
 
-Three rounds of sub-agents (round 1 and 2: one per property, two changes each; round 3: one per pair of properties, two changes per property), each given only the
-property text and a private worktree, were asked for a change that breaks the property while the crate compiles and the 99 + 11 existing tests still pass, with a
+Four rounds of sub-agents (round 1 and 2: one per property, two changes each; round 3: one per pair of properties, two changes per property; round 4: one per
+area of the crate, four "stylistic refactorings with one subtle slip" each), each given only the property text and a private worktree, were asked for a change
+that breaks the property while the crate compiles and the 99 + 11 existing tests still pass, with a
 demonstration that fails with the change and passes without it. Every change below was re-confirmed by `tools/verify_seed.py` in a scratch worktree before being
 kept (`meta.json: confirmed`). `patch.diff` applies to /repo at the commit of the last `fix:`; `demo.rs` is an integration test (copy to `tests/`). None of these
 changes is ever committed to /repo. `_agent_notes/` keeps the agents' own notes (also those of the behaviour-preserving refactorings and feature additions, which
@@ -43,7 +44,7 @@ them to scratch copies outside /repo. The last column is what the kill matrix (`
 """
 tbl = "| id | breaks | needs, in order to manifest | reported by the target check | all checks that fire |\n|----|--------|-----------------------------|------------------------------|----------------------|\n"
 body = ""
-for rnd in (1, 2, 3):
+for rnd in (1, 2, 3, 4):
     body += "## Round %d (%d changes)\n\n" % (rnd, len(rows[rnd])) + tbl + "\n".join(rows[rnd]) + "\n\n"
 tail = """%d of %d are reported by the check of the property they were written against (further fire-list entries are other properties the change also breaks, or
 checks that cannot extract their kernel from the changed code and fail closed). The %d that are not reported (%s) replace a formula by an algebraically identical
@@ -52,18 +53,20 @@ one that overflows / loses accuracy in floating-point or integer arithmetic - ou
 open(os.path.join(HERE, 'seeded', 'README.md'), 'w').write(head + body + tail)
 # DESIGN.md tables
 hand = ["| `%s` | %s | %s |" % (k, v['target'], ' '.join(v['fires']) or '-')
-        for k, v in sorted(exp.items()) if not k.startswith('seeded/') and not k.startswith('neutral')]
+        for k, v in sorted(exp.items()) if not k.startswith('seeded/') and not k.startswith('neutral') and not k.startswith('unmodelled')]
 t1 = "| seeded violation (selftest/*.diff) | target | checks that fire |\n|---|---|---|\n" + "\n".join(hand)
 seed = ["| `%s` | %s | %s | %s |" % (k[7:], v['target'], 'yes' if v['target'] in v['fires'] else '**no**', ' '.join(v['fires']) or '-')
         for k, v in sorted(exp.items()) if k.startswith('seeded/')]
 t2 = "| independent change (seeded/<id>) | written against | reported by that check | checks that fire |\n|---|---|---|---|\n" + "\n".join(seed)
 neutral = sorted(k for k in exp if k.startswith('neutral'))
 groups = [("hand-written refactorings", [k for k in neutral if not k.startswith(('neutral_agent', 'neutral_feature', 'neutral_rename'))]),
-          ("sub-agent refactorings (12 areas x 3)", [k for k in neutral if k.startswith('neutral_agent')]),
+          ("sub-agent refactorings (18 areas, 3 each, minus the five listed below)", [k for k in neutral if k.startswith('neutral_agent')]),
           ("sub-agent additive changes (accessors, new strategy, code moves, doc/lint pass, tests)", [k for k in neutral if k.startswith('neutral_feature')]),
           ("sub-agent renames of private items and module reorganisations", [k for k in neutral if k.startswith('neutral_rename')])]
 t3 = "| behaviour-preserving patches (selftest/neutral_*.diff) | count | checks that fire |\n|---|---|---|\n" + \
-     "\n".join("| %s: %s | %d | none |" % (g, ' '.join('`%s`' % k[8:] for k in ks), len(ks)) for g, ks in groups if ks)
+     "\n".join("| %s: %s | %d | none |" % (g, ' '.join('`%s`' % k[8:] for k in ks), len(ks)) for g, ks in groups if ks) + "\n" + \
+     "\n".join("| **not understood** (deep restructuring, behaviour-preserving): `%s` | 1 | %s (false alarms) |" % (k, ' '.join(v['fires']))
+               for k, v in sorted(exp.items()) if k.startswith('unmodelled'))
 p = os.path.join(HERE, 'DESIGN.md')
 s = open(p).read()
 s = re.sub(r"### 5\.1 Kill matrix of the hand-seeded violations\n.*?### 5\.2", "### 5.1 Kill matrix of the hand-seeded violations\n\n" +
